@@ -284,7 +284,7 @@ func init() {
 	register(&propertySpec{
 		ID:      "C13",
 		Explain: "Static totality rules: recursion classes, may-panic sites on input-derived data, nil use after an ignored error, locks released by plain calls around code that can panic, swallowed errors.",
-		Rules:   []ruleFn{ruleTerm("C13"), rulePanics, ruleErrSwallow, ruleNilAfterErr, ruleLockDefer},
+		Rules:   []ruleFn{ruleTerm("C13"), rulePanics, rulePanicNilUse, ruleErrSwallow, ruleNilAfterErr, ruleLockDefer, rulePrivPair},
 	})
 }
 
@@ -616,7 +616,7 @@ func ruleNilAfterErr(w *World, r *Report) {
 					}
 					return true
 				}
-				if h, _ := reachPS(fn, first, isDeref, nil, nilEdges); h != nil {
+				if h, _ := reachPS(fn, first, isDeref, func(x ssa.Instruction) bool { return x == in }, nilEdges); h != nil {
 					// make sure the path did not pass a re-assignment; SSA values are immutable, so ptr is still the failed result
 					bad = w.PosOf(h)
 				}
